@@ -355,7 +355,20 @@ func TestVerif_C03(t *testing.T) {
 					}
 				} else {
 					for i, n := 0, rapid.IntRange(1, 5).Draw(t, "next"); i < n; i++ {
-						exts = append(exts, vfGenExt(t, i, exts))
+						e := vfGenExt(t, i, exts)
+						if rapid.IntRange(0, 14).Draw(t, "ctlname") == 0 {
+							// a name read from a file with its line end, a tab in a parameter ...: still a registration
+							old := e.Mime
+				e.Mime += rapid.SampledFrom([]string{"\r", "\n", "\r\n", ";\tv=1", "\x7f", " "}).Draw(t, "ctl")
+				kept := e.Aliases[:0:0]
+				for _, al := range e.Aliases {
+					if al != old {
+						kept = append(kept, al)
+					}
+				}
+				e.Aliases = kept
+						}
+						exts = append(exts, e)
 					}
 				}
 				return c03Case{X: x, Limit: vfGenLimit(t, len(x)), Exts: exts, OnResult: rapid.IntRange(0, 3).Draw(t, "onresult") == 0}
